@@ -23,7 +23,10 @@ def build_grid(hs, spec):
     g = hs.Grid(version='3.0', columns=[('id', []), ('n', []), ('s', []), ('siteRef', [])])
     n = spec['nrows']
     for j in range(n):
-        row = {'id': 'r%d' % j, 'n': j, 's': STRS[j % len(STRS)]}
+        row = {'id': 'r%d' % j, 'n': j, 's': STRS[j % len(STRS)],
+               # one value per literal kind of the filter grammar (each has its own parse action)
+               'geo': hs.Coordinate(float(j), float(j) / 2), 'u': hs.Uri('http://x/%d' % j), 'b': j % 3 == 0,
+               'r': hs.Ref('p%d' % (j % 4))}
         for t, members in spec['tags'].items():
             if j in members:
                 row[t] = hs.MARKER
@@ -62,6 +65,14 @@ def expected_rows(spec, f):
             ok = tgt is not None and has(tgt, f['t'])
         elif k == 'paren':
             ok = (has(j, f['t']) or has(j, f['u'])) and j > f['v']
+        elif k == 'coord':
+            ok = j == f['v']
+        elif k == 'uri':
+            ok = j == f['v']
+        elif k == 'bool':
+            ok = (j % 3 == 0) == f['v']
+        elif k == 'refeq':
+            ok = (j % 4) == f['v']
         elif k == 'interval':
             ok = f['a'] <= j < f['b']
         elif k == 'scan':
@@ -91,6 +102,14 @@ def filter_text(f):
         s = 'siteRef->%s' % f['t']
     elif k == 'paren':
         s = '(%s or %s) and n > %d' % (f['t'], f['u'], f['v'])
+    elif k == 'coord':
+        s = 'geo == C(%s,%s)' % (float(f['v']), float(f['v']) / 2)
+    elif k == 'uri':
+        s = 'u == `http://x/%d`' % f['v']
+    elif k == 'bool':
+        s = 'b == %s' % ('true' if f['v'] else 'false')
+    elif k == 'refeq':
+        s = 'r == @p%d' % f['v']
     elif k == 'interval':
         s = 'n >= %d and n < %d' % (f['a'], f['b'])
     elif k == 'scan':
@@ -187,7 +206,7 @@ class C13(BaseCheck):
         tries = 0
         while len(pool) < size and tries < 200:
             tries += 1
-            kind = k.choice(['has', 'not', 'cmp', 'cmp', 'and', 'or', 'str', 'str', 'ref', 'paren'])
+            kind = k.choice(['has', 'not', 'cmp', 'cmp', 'and', 'or', 'str', 'str', 'ref', 'paren', 'coord', 'uri', 'bool', 'refeq'])
             f = {'kind': kind}
             if kind in ('has', 'not', 'ref'):
                 f['t'] = k.choice(tags)
@@ -200,6 +219,12 @@ class C13(BaseCheck):
             elif kind in ('or', 'paren'):
                 f['t'], f['u'] = k.sample(tags, 2)
                 f['v'] = k.randrange(n - 1)
+            elif kind in ('coord', 'uri'):
+                f['v'] = k.randrange(n)
+            elif kind == 'bool':
+                f['v'] = k.random() < 0.5
+            elif kind == 'refeq':
+                f['v'] = k.randrange(4)
             elif kind == 'str':
                 f['o'] = k.choice(['==', '=='])
                 f['s'] = k.choice(STRS[:n])
